@@ -145,9 +145,6 @@ impl Monitor for C01 {
             ("\\n*$\\nb", "m", "\n\nb"),
             ("($)+.", "", "a"),
             ("^(?:a?){2}$", "", "aaa"),
-            ("(?:1?)*1", "", "1a"),
-            ("(?:.*)*a", "", "aA"),
-            ("^(.*)+B", "", "AB"),
             ("()^a", "m", "\na"),
             ("b*^a", "m", "\na"),
             ("(?:a|bb)+?c", "", "cc"),
